@@ -206,6 +206,10 @@ func (fc *FuncCtx) checkPost(st *State, vals []Term, n ast.Node) {
 		}
 		fc.oblige(st, "post", site+".ret"+ro, t.S, n, e.Text)
 	}
+	// every lock taken by the function is released at its returns
+	for owner, mode := range st.held {
+		fc.oblige(st, "lock.held", owner+".released.ret"+ro, "false", n, "lock of "+owner+" (mode "+mode+") is still held at return")
+	}
 	// exit assertions: like ensures, with the function's locals in scope (not exported to callers)
 	for i, e := range fc.contract.ExitAsserts {
 		lenv := fc.codeEnv(st, fc.decl.Body.Rbrace-1)
